@@ -254,6 +254,69 @@ pub fn check_blob(case: &BlobCase) -> Outcome {
     out
 }
 
+/// Explicit bytes (fuzzer-produced): either raw bytes, or byte edits of one of the 24 small emitted
+/// streams, optionally with the checksums of the touched frames recomputed.
+#[derive(Clone, Debug, Serialize, Deserialize)]
+pub struct RawCase {
+    pub base: Option<u64>,
+    pub hex: String,
+    /// (position relative to the first frame, modulo the frame region; xor mask, 0 means "set to 0xFF")
+    pub edits: Vec<(u16, u8)>,
+    pub fix_crc: bool,
+}
+
+pub fn check_raw(case: &RawCase) -> Outcome {
+    let mut out = Outcome::new(crate::util::fnv(serde_json::to_string(case).unwrap_or_default().as_bytes()));
+    match case.base {
+        None => {
+            let b = crate::util::unhex(&case.hex);
+            let dummy = Base { bytes: vec![], samples: vec![], frames: vec![] };
+            judge(&mut out, &dummy, &b, "fuzzer bytes", false);
+            out.class("raw-bytes");
+            out.nontrivial = b.starts_with(b"fLaC");
+        }
+        Some(s) => {
+            let Some(base) = base_of(&small_stream(s % 24)) else {
+                out.class("skipped:no-base-stream");
+                return out;
+            };
+            let mut b = base.bytes.clone();
+            let f0 = base.frames[0].0;
+            let region = b.len() - f0;
+            let mut touched: Vec<usize> = vec![];
+            for (pos, x) in &case.edits {
+                let p = f0 + (*pos as usize) % region;
+                if *x == 0 {
+                    b[p] = 0xFF;
+                } else {
+                    b[p] ^= *x;
+                }
+                if let Some(fi) = base.frames.iter().position(|f| p >= f.0 && p < f.1) {
+                    if !touched.contains(&fi) {
+                        touched.push(fi);
+                    }
+                }
+            }
+            if case.fix_crc {
+                for fi in &touched {
+                    let (fs, fe, hl) = base.frames[*fi];
+                    if hl >= 2 && fs + hl <= fe {
+                        b[fs + hl - 1] = refdec::crc8(&b[fs..fs + hl - 1]);
+                    }
+                    let c = refdec::crc16(&b[fs..fe - 2]);
+                    b[fe - 2] = (c >> 8) as u8;
+                    b[fe - 1] = c as u8;
+                }
+            }
+            let strict = !case.fix_crc && touched.len() == 1 && b != base.bytes;
+            judge(&mut out, &base, &b, &format!("byte edits {:?} of small stream {s} (crc fixed: {})", case.edits, case.fix_crc), strict);
+            out.class(if case.fix_crc { "edits:crc-fixed" } else { "edits:raw" });
+            out.nontrivial = !case.edits.is_empty();
+        }
+    }
+    out
+}
+
 pub fn small_stream(i: u64) -> StreamCase {
     super::c12::crafted_base(i)
 }
@@ -304,6 +367,9 @@ pub fn run(ctx: &Ctx) {
 
 pub fn replay(path: &str) -> Result<Outcome, String> {
     let (kind, case) = crate::core::replay_kind(path)?;
+    if case.get("hex").is_some() {
+        return Ok(check_raw(&serde_json::from_value(case).map_err(|e| e.to_string())?));
+    }
     if kind.starts_with("bursts") || case.get("byte").is_some() {
         Ok(check_byte(&serde_json::from_value(case).map_err(|e| e.to_string())?))
     } else {
